@@ -65,6 +65,13 @@ func c01headers(r *mon.Rand, alg cose.Algorithm, mode int, maxEntries, fill int)
 	}
 	prot, iv := gen.GoHeader(r, gen.HeaderOpts{Protected: true, MaxEntries: maxEntries, Alg: ap, AlgSpell: r.Intn(5), FillTo: fill}, false)
 	unprot, _ := gen.GoHeader(r, gen.HeaderOpts{MaxEntries: maxEntries / 2}, iv != 0)
+	// nil and empty maps are both "no parameters"
+	if len(prot) == 0 && r.Bool() {
+		prot = nil
+	}
+	if len(unprot) == 0 && r.Bool() {
+		unprot = nil
+	}
 	return cose.Headers{Protected: prot, Unprotected: unprot}
 }
 
@@ -782,6 +789,12 @@ func (e *c01env) hashEnvelope(r *mon.Rand, in map[string]any, base string, h cos
 	msgBytes := r.Bytes(r.Intn(100))
 	hv := refcrypto.Digest(map[cose.Algorithm]cryptoHash{cose.AlgorithmSHA256: hSHA256, cose.AlgorithmSHA384: hSHA384, cose.AlgorithmSHA512: hSHA512}[ha], msgBytes)
 	p := cose.HashEnvelopePayload{HashAlgorithm: ha, HashValue: hv}
+	if r.Intn(5) == 0 {
+		// a hash algorithm this library has no implementation for: any digest length goes
+		p.HashAlgorithm = mon.Pick(r, cose.Algorithm(-15), cose.Algorithm(-18), cose.Algorithm(-65540), cose.Algorithm(70001))
+		ha = p.HashAlgorithm
+		p.HashValue = r.Bytes(1 + r.Intn(70))
+	}
 	if r.Bool() {
 		p.PreimageContentType = mon.Pick[any](r, "text/plain", uint64(50), int64(60), "x")
 	}
